@@ -27,6 +27,27 @@ from . import build as vbuild
 
 VERIF = os.path.dirname(os.path.dirname(os.path.abspath(__file__)))
 LEAN = os.path.join(VERIF, "lean")
+OUT = VERIF
+
+
+def _private_copies():
+    """Development aid: when VERIF_REPO points at a scratch tree (mutation testing), work on a private rsync'ed copy of
+    the Lean project (Gen/ files are rewritten from the tree under test) and write evidence/replays to a scratch
+    directory, so that concurrent runs against different trees do not disturb each other or /verif."""
+    global LEAN, OUT
+    repo = os.environ.get("VERIF_REPO")
+    if not repo or os.path.abspath(repo) == "/repo":
+        return
+    tag = hashlib.sha256(os.path.abspath(repo).encode()).hexdigest()[:10]
+    base = os.path.join(vbuild.SCRATCH + "-alt", tag)
+    os.makedirs(base, exist_ok=True)
+    with open(os.path.join(base, ".lock"), "w") as lk:
+        fcntl.flock(lk, fcntl.LOCK_EX)
+        subprocess.run(["rsync", "-a", "--delete", "--exclude", "verif.lock", os.path.join(VERIF, "lean") + "/", os.path.join(base, "lean") + "/"], check=True)
+    LEAN = os.path.join(base, "lean")
+    OUT = os.path.join(base, "out")
+    os.makedirs(OUT, exist_ok=True)
+
 STD_AXIOMS = {"propext", "Classical.choice", "Quot.sound"}
 FORBIDDEN = re.compile(r"\bsorry\b|\badmit\b|^\s*axiom\s|native_decide|bv_decide|implemented_by|\bunsafe\s|maxHeartbeats\s+0\b")
 
@@ -119,7 +140,8 @@ class Ctx:
         self.axioms_seen = {}
         self.broken = []          # names of broken proof obligations / correspondences
         self.notes = []
-        self.replay_dir = os.path.join(VERIF, "replays", pid)
+        _private_copies()
+        self.replay_dir = os.path.join(OUT, "replays", pid)
         os.makedirs(self.replay_dir, exist_ok=True)
         try:
             with open(os.path.join(VERIF, "known_findings.json")) as f:
@@ -327,8 +349,8 @@ class Ctx:
             "violations": self.nviol,
             "known_findings_reported": self.nknown,
         }
-        os.makedirs(os.path.join(VERIF, "evidence"), exist_ok=True)
-        p = os.path.join(VERIF, "evidence", self.pid + ".json")
+        os.makedirs(os.path.join(OUT, "evidence"), exist_ok=True)
+        p = os.path.join(OUT, "evidence", self.pid + ".json")
         with open(p + ".tmp", "w") as f:
             json.dump(ev, f, indent=1, default=str)
         os.replace(p + ".tmp", p)
